@@ -14,7 +14,7 @@ RULE = ("for every graph in the box and every size limit, the real MPCC is run o
         "cliques with <= 6 members; otherwise identity, reversal, all rotations, all transpositions; edge and "
         "single-vertex classes: identity and reversal) x class interleaving (as enumerated / whole list reversed); "
         "non-trivial = graph with >= 2 cliques of >= 3 vertices sharing an edge")
-BOUNDS = {"quick": "all labelled loop-free graphs on 2..4 vertices, all 34 atlas graphs on 5 vertices; limits "
+BOUNDS = {"quick": "all labelled loop-free graphs on 2..4 vertices, all 34 atlas graphs on 5 vertices (those with <= 8 edges also under a non-contiguous shuffled labelling); limits "
                    "0,2..n; second call on a labelled graph for n<=4",
           "thorough": "all labelled graphs on 5 vertices; atlas graphs on 6 vertices with <= 11 edges in 2 labelings"}
 ASSUMPTIONS = ["exhaustive over orders 'among equal-sized cliques' whenever every class of >= 3-vertex cliques has "
@@ -88,6 +88,9 @@ def graphs(tier, seed):
         if g.number_of_nodes() == 5:
             yield {"n": 5, "edges": sorted(tuple(sorted(e)) for e in g.edges()), "labels": None,
                    "second_call": False}
+            if g.number_of_edges() <= 8:
+                yield {"n": 5, "edges": sorted(tuple(sorted(e)) for e in g.edges()),
+                       "labels": enumr.relabelings(5, seed, kinds=("sparse",))[0], "second_call": False}
     if tier == "thorough":
         for mask in enumr.labelled_graph_masks(5):
             yield {"n": 5, "edges": enumr.mask_edges(5, mask), "labels": None, "second_call": False}
